@@ -7,24 +7,40 @@ import base64
 from sa.domains import fmt_set
 from sa.selftest import Mutant, Silent
 from sa.source import AnalysisError
-from sa.props._lib_i import sect, COMPAT, BlockRaised, FollowModule, Raised, interp, module_env
+from sa.astx import walk_local
+from sa.props._lib_i import sect, COMPAT, BlockRaised, FollowModule, Raised, domain_argument, interp, kinded, module_env, reads_param_unitwise
 
 PROPERTY = "C41"
+RULE_KINDS = {
+    # per-unit evaluation over the complete unit domain, premise (unit-wise coder, decisions by comparison with constants) checked on the code
+    "xtext/escape-set": "finite-exhaustive", "xtext/escape-form": "finite-exhaustive", "xtext/decode-inverts": "finite-exhaustive",
+    "utf7/unit-classes": "finite-exhaustive", "utf7/direct-set": "finite-exhaustive", "utf7/ampersand": "finite-exhaustive",
+    "utf7/flush-before-direct": "finite-exhaustive", "utf7/pending-cleared-after-flush": "finite-exhaustive", "utf7/flush-at-end": "finite-exhaustive",
+    "utf7/decoder-transitions": "finite-exhaustive",
+    "utf7/routed-disjoint-from-codec-direct": "finite-exhaustive",      # every routed ASCII character, singly
+    # the same rules when the premise could not be established on the code
+    "xtext/escape-set (bounded)": "bounded", "xtext/escape-form (bounded)": "bounded", "xtext/decode-inverts (bounded)": "bounded",
+    "utf7/unit-classes (bounded)": "bounded", "utf7/direct-set (bounded)": "bounded", "utf7/ampersand (bounded)": "bounded",
+    "utf7/flush-before-direct (bounded)": "bounded", "utf7/pending-cleared-after-flush (bounded)": "bounded", "utf7/flush-at-end (bounded)": "bounded",
+    "utf7/decoder-transitions (bounded)": "bounded",
+    "xtext/result": "bounded", "utf7/helper-payload": "bounded", "utf7/base64-alphabet": "bounded",
+}
 SMTP = "mail/smtp.py"
 IMAP = "mail/imap4.py"
-TECHNIQUE = "exhaustive per-unit evaluation of the codec functions against RFC tables"
+TECHNIQUE = "finite-exhaustive per-unit evaluation with unit-wise premise checked; bounded payload samples"
 EXPLANATION = (
-    "xtext: smtp.xtext_encode is evaluated (interpreted from its AST, whatever idiom it is written in) for all 256 byte values and must equal the RFC 3461 rewrite (raw for "
-    "0x21-0x7E except '+' and '=', else '+' and two upper-case hex digits; a bytes-vs-str comparison evaluates to False exactly as "
-    "in Python 3: F41a, fixed); xtext_decode on each encoded unit followed by several continuations must yield that byte's code point and "
-    "frame the rest after exactly the unit. Modified UTF-7: imap4.encoder is evaluated on every ASCII code point, "
-    "representative non-ASCII ones and short mixed texts: printable ASCII except '&' is emitted as itself, '&' as '&-', pending base64 input is flushed "
-    "(and cleared) before every direct character and at the end, shift-in/out are '&'/'-'; modified_base64 is "
-    "evaluated on every routed character and on runs whose payload starts / ends with '+' or ',' against RFC 3501 modified base64 "
-    "(stdlib utf-7 / base64 delegated to CPython): it removes a '+...-' wrapper that characters the stdlib encoder emits directly "
-    "(RFC 2152 sets D, O, white space; table frozen here) never get - TAB, LF, CR are routed to it: known finding F41b; "
-    "modified_unbase64 inverts the payload; the decoder is evaluated on inputs covering every (shift state, unit class) pair. Not decided: "
-    "value-level round trip of the base64 payload (delegated to the stdlib codec), str-vs-bytes type of xtext_decode's result."
+    'FINITE-EXHAUSTIVE, each with its premise checked on the code (the coder and the module helpers it calls take every bra'
+    'nch decision from the current unit, constants and their own small state; the encoders only iterate their input): xtext'
+    "_encode on all 256 byte values equals the RFC 3461 rewrite (raw 0x21-0x7E except '+' '=', else '+' and two upper-case "
+    'hex digits; a bytes-vs-str comparison is false as in Python 3: F41a, fixed); xtext_decode on every encoded unit x cont'
+    "inuations (incl. literal '%XX') yields the byte and frames the rest; imap4.encoder on every ASCII character plus repre"
+    "sentatives of the single 'other' class: printable ASCII except '&' as itself, '&' as '&-', and all (pending?, unit cla"
+    'ss, end) combinations of the shift discipline; decoder on all (shift state, unit class) pairs; every ASCII character r'
+    'outed to modified_base64, singly, against RFC 3501 modified base64 - TAB, LF, CR come back wrong because the stdlib ut'
+    "f-7 encoder emits them directly (known finding F41b). When a premise cannot be established the same rule reports as '("
+    "bounded)'. BOUNDED only: modified_base64 / modified_unbase64 on sampled runs (payloads starting or ending with '+' or "
+    "','; the payload itself is the stdlib codec's, an infinite domain), xtext_encode's (bytes, length) result on four text"
+    "s. Not decided: str-vs-bytes type of xtext_decode's result."
 )
 ASSUMPTIONS = [
     "stdlib utf-7 encoder emits exactly RFC 2152 set D, set O, SP, TAB, CR, LF directly and wraps every other run as '+<base64>-' (CPython Objects/unicodeobject.c utf7_category)",
@@ -48,6 +64,36 @@ def _xtext_ref(v: int) -> bytes:
 
 # ---- xtext ---------------------------------------------------------------------------------------------------
 
+def _unit_argument(mod, f, seq_param=None, scanner=False):
+    """Domain argument for a codec function (with the module-level helpers it calls): every branch decision depends only on the
+    current unit (loop variables / helper parameters), on constants, and on the function's own small state (accumulators, an index);
+    for a non-scanning coder the sequence is moreover only iterated.  Then one evaluation per unit value (x state) is complete."""
+    helpers, work = {}, [f]
+    while work:
+        cur = work.pop()
+        for c in ast.walk(cur):
+            if isinstance(c, ast.Call) and isinstance(c.func, ast.Name):
+                h = next((st for st in mod.tree.body if isinstance(st, ast.FunctionDef) and st.name == c.func.id), None)
+                if h is not None and h.name not in helpers and h is not f:
+                    helpers[h.name] = h
+                    work.append(h)
+    funcs = [f] + list(helpers.values())
+    for fn in funcs:
+        params = {a.arg for a in fn.args.args}
+        loopvars = {n.id for st in walk_local(fn) if isinstance(st, (ast.For, ast.comprehension)) for n in ast.walk(st.target) if isinstance(n, ast.Name)}
+        state = {t.id for st in walk_local(fn) if isinstance(st, ast.Assign) for t in st.targets if isinstance(t, ast.Name)
+                 and (isinstance(st.value, (ast.List, ast.Constant)) or (isinstance(st.value, ast.Call) and not st.value.args))}
+        state |= {st.target.id for st in walk_local(fn) if isinstance(st, ast.AugAssign) and isinstance(st.target, ast.Name)}
+        ok, why = domain_argument([fn], inputs=params | loopvars, state=state, helpers=set(helpers) | {"groupby", "reduce", "memory_cast", "memoryview"})
+        if not ok:
+            return False, why
+    if seq_param is not None and not scanner:
+        ok, why = reads_param_unitwise([f], seq_param)
+        if not ok:
+            return False, why
+    return True, "branch decisions read only the current unit, constants and the coder's own state" + ("; the input is only iterated" if seq_param and not scanner else "")
+
+
 def _call(fn, *args):
     """(value, None) or (None, text describing the exception the evaluated repository function raises)."""
     try:
@@ -68,6 +114,9 @@ def _check_xtext(ctx):
     q = "twisted.mail.smtp.xtext_encode"
     smod = ctx.mod(SMTP)
     enc = interp(f, FollowModule(smod, dict(COMPAT), env0), env0)
+    ex_enc, why_enc = _unit_argument(smod, f, f.args.args[0].arg)
+    if not ex_enc:
+        ctx.note(f"{q}: domain argument not established ({why_enc}); the per-byte evaluation is bounded evidence")
     outs = {}
     for v in range(256):
         got, err = _call(enc, bytes([v]))
@@ -79,13 +128,13 @@ def _check_xtext(ctx):
     escaped = {v for v in range(256) if outs[v] != bytes([v])}
     want_escaped = set(range(256)) - XCHAR
     missing, extra = want_escaped - escaped, escaped - want_escaped
-    ctx.check(not missing, "xtext/escape-set", q + " | bytes that must be escaped",
+    ctx.check(not missing, kinded("xtext/escape-set", ex_enc), q + " | bytes that must be escaped",
               f"bytes {fmt_set(missing)} ({bytes(sorted(missing))[:8]!r}) are emitted raw; RFC 3461 xtext allows raw only 0x21-0x7E except '+' and '=' "
-              "(a raw '+' is then read back as the start of a hex escape)", detail="256 byte values evaluated")
-    ctx.check(not extra, "xtext/escape-set", q + " | bytes that must stay raw",
+              "(a raw '+' is then read back as the start of a hex escape)", detail="all 256 byte values; " + why_enc)
+    ctx.check(not extra, kinded("xtext/escape-set", ex_enc), q + " | bytes that must stay raw",
               f"xchar bytes {fmt_set(extra)} are not emitted as themselves")
     bad = [v for v in sorted(escaped & want_escaped) if outs[v] != _xtext_ref(v)]
-    ctx.check(not bad, "xtext/escape-form", q + " | '+' HEXDIG HEXDIG",
+    ctx.check(not bad, kinded("xtext/escape-form", ex_enc), q + " | '+' HEXDIG HEXDIG",
               bad and f"byte 0x{bad[0]:02x} is escaped as {outs[bad[0]]!r}; RFC 3461 hexchar is '+' followed by exactly two upper-case hex digits ({_xtext_ref(bad[0])!r})")
     bad = None
     for text in (b"", b"a+", b"+=\x00\xff~!", b"ab cd"):
@@ -101,6 +150,9 @@ def _check_xtext(ctx):
     f = ctx.func(SMTP, "xtext_decode")
     q = "twisted.mail.smtp.xtext_decode"
     dec = interp(f, FollowModule(smod, dict(COMPAT), env0), env0)
+    ex_dec, why_dec = _unit_argument(smod, f, f.args.args[0].arg, scanner=True)
+    if not ex_dec:
+        ctx.note(f"{q}: domain argument not established ({why_dec}); the per-unit evaluation is bounded evidence")
     bad_val = bad_len = None
     for v in range(256):
         unit = _xtext_ref(v)
@@ -114,10 +166,10 @@ def _check_xtext(ctx):
                 bad_val = (v, unit + tail, got)
             if isinstance(got, tuple) and len(got) == 2 and got[1] != len(unit + tail) and bad_len is None:
                 bad_len = (v, unit + tail, got)
-    ctx.check(bad_val is None, "xtext/decode-inverts", q + " | value",
+    ctx.check(bad_val is None, kinded("xtext/decode-inverts", ex_dec), q + " | value",
               bad_val and f"decoding {bad_val[1]!r} gives {bad_val[2]!r}; the first unit encodes byte 0x{bad_val[0]:02x} and the rest must be framed after exactly that unit",
-              detail="256 encoded units x 7 continuations (incl. literal '%XX', which is ordinary xtext data)")
-    ctx.check(bad_len is None, "xtext/decode-inverts", q + " | consumed length",
+              detail="every encoded unit (the complete image of the per-byte encoder) x 7 continuations; " + why_dec)
+    ctx.check(bad_len is None, kinded("xtext/decode-inverts", ex_dec), q + " | consumed length",
               bad_len and f"decoding {bad_len[1]!r} reports {bad_len[2][1]} consumed units instead of {len(bad_len[1])}")
 
 
@@ -135,6 +187,10 @@ def _check_utf7_encoder(ctx):
     ctx.need(isinstance(mod.find(helper), ast.FunctionDef), f"imap4.{helper}")
     menv = module_env(mod)
     enc = interp(f, FollowModule(mod, {**COMPAT, helper: _marker}, menv), menv)
+
+    ex_u7, why_u7 = _unit_argument(mod, f, f.args.args[0].arg)
+    if not ex_u7:
+        ctx.note(f"{q}: domain argument not established ({why_u7}); the per-character / per-state evaluation is bounded evidence")
 
     def run(text):
         got, err = _call(enc, text)
@@ -156,13 +212,13 @@ def _check_utf7_encoder(ctx):
             amp.add(cp)
         else:
             other[cp] = o
-    ctx.check(not other, "utf7/unit-classes", q + " | per-character output",
+    ctx.check(not other, kinded("utf7/unit-classes", ex_u7), q + " | per-character output",
               other and f"code point U+{min(other):04X} alone is encoded as {other[min(other)]!r}: neither itself, '&-' nor '&' base64 '-'")
     want_direct = PRINTABLE - {ord("&")}
-    ctx.check(direct == want_direct, "utf7/direct-set", q + " | characters that represent themselves",
+    ctx.check(direct == want_direct, kinded("utf7/direct-set", ex_u7), q + " | characters that represent themselves",
               f"characters emitted as themselves differ from RFC 3501 5.1.3 (printable US-ASCII except '&') on {fmt_set(direct ^ want_direct)}"
-              + ("; a literal '&' is read back as a shift into base64" if ord("&") in direct else ""), detail=f"{len(cps)} code points evaluated")
-    ctx.check(amp == {ord("&")}, "utf7/ampersand", q + " | '&' -> '&-'", f"the set of characters encoded as '&-' is {fmt_set(amp)}, must be exactly '&'")
+              + ("; a literal '&' is read back as a shift into base64" if ord("&") in direct else ""), detail=f"every ASCII character + {len(SAMPLE_NON_ASCII)} representatives of the single 'other' class; " + why_u7)
+    ctx.check(amp == {ord("&")}, kinded("utf7/ampersand", ex_u7), q + " | '&' -> '&-'", f"the set of characters encoded as '&-' is {fmt_set(amp)}, must be exactly '&'")
 
     # the base64 helper, evaluated (the stdlib utf-7 / base64 codecs are delegated to CPython, the repository code is interpreted):
     # for every run of routed characters it must produce RFC 3501 modified base64 of the run's UTF-16BE form.  F41b: characters the
@@ -210,9 +266,9 @@ def _check_utf7_encoder(ctx):
             ("utf7/flush-at-end", "empty input", "", b""),
             ("utf7/unit-classes", "consecutive routed characters share one shift sequence", E + U + E, sh(E + U + E))):
         got = run(text)
-        ctx.check(got == want, rule, f"{q} | {case}", f"{text!r} is encoded as {got!r}; required {want!r} (shift in with '&', base64 of the whole run, shift out with '-')")
+        ctx.check(got == want, kinded(rule, ex_u7), f"{q} | {case}", f"{text!r} is encoded as {got!r}; required {want!r} (shift in with '&', base64 of the whole run, shift out with '-')")
     got, err = _call(enc, E + "ab")
-    ctx.check(err is None and got[1] == 3, "utf7/unit-classes", q + " | consumed length", f"encoder reports {got[1] if err is None else err} consumed characters for a 3-character input")
+    ctx.check(err is None and got[1] == 3, kinded("utf7/unit-classes", ex_u7), q + " | consumed length", f"encoder reports {got[1] if err is None else err} consumed characters for a 3-character input")
 
 
 def _check_b64_helpers(ctx):
@@ -243,7 +299,11 @@ def _check_utf7_decoder(ctx):
     funcs["memoryview"] = lambda b: bytes(b)
     funcs["memory_cast"] = lambda mv, fmt: [bytes(mv)[i:i + 1] for i in range(len(bytes(mv)))]       # memoryview(b).cast('c'): one-byte bytes objects
     dec = interp(f, funcs, denv)
+    ex_d7, why_d7 = _unit_argument(mod, f, f.args.args[0].arg, scanner=True)
+    if not ex_d7:
+        ctx.note(f"{q}: domain argument not established ({why_d7}); the transition cases are bounded evidence")
     cases = [
+        ("'&' right after the shift character is payload", b"&&A-", "<&A>"),
         ("direct text", b"ab-c", "ab-c"), ("'&-' is a literal ampersand", b"a&-b", "a&b"), ("shift sequence", b"&AOk-", "<AOk>"),
         ("shift sequence of one sextet group", b"&A-", "<A>"), ("shift sequence between direct text", b"x&AOk-y", "x<AOk>y"),
         ("'&' inside a shift sequence is payload", b"&AO&k-", "<AO&k>"), ("',' and '+' inside a shift sequence are payload", b"&A,+-", "<A,+>"),
@@ -253,7 +313,7 @@ def _check_utf7_decoder(ctx):
     for case, data, want in cases:
         got, err = _call(dec, data)
         ok = err is None and isinstance(got, tuple) and len(got) == 2 and got[0] == want and got[1] == len(data)
-        ctx.check(ok, "utf7/decoder-transitions", f"{q} | {case}",
+        ctx.check(ok, kinded("utf7/decoder-transitions", ex_d7), f"{q} | {case}",
                   f"decoder({data!r}) gives {(got if err is None else err)!r}; RFC 3501 modified UTF-7 requires ({want!r}, {len(data)}) (<...> stands for the base64 payload handed to modified_unbase64)")
 
 
